@@ -204,6 +204,72 @@ func abs64(x int64) int64 {
 	return x
 }
 
+// ---- the pinned-dependency findings, decided on the literal itself ---------------------------------
+//
+// Both number findings are behaviour of cty.ParseNumberVal (= big.ParseFloat at 512 bits), which hcl
+// calls with the literal's text. A failure is filed under them only when (1) the dependency, called
+// here directly with the exact literal text, does the very same thing - so hcl added nothing of its
+// own - and (2) the literal has the shape the finding describes.
+
+// depNumber is what the pinned dependency makes of the literal text.
+func depNumber(lit string) (*big.Float, bool) {
+	v, err := cty.ParseNumberVal(lit)
+	if err != nil || !v.IsKnown() || v.IsNull() {
+		return nil, false
+	}
+	return v.AsBigFloat(), true
+}
+
+func sameBig(a, b *big.Float) bool {
+	if a.IsInf() || b.IsInf() {
+		return a.IsInf() && b.IsInf() && a.Sign() == b.Sign()
+	}
+	return a.Cmp(b) == 0
+}
+
+// expOf returns the explicit exponent of a JSON number literal (0 when there is none).
+func expOf(lit string) *big.Int {
+	e := new(big.Int)
+	if i := strings.IndexAny(lit, "eE"); i >= 0 {
+		e.SetString(strings.TrimPrefix(lit[i+1:], "+"), 10)
+	}
+	return e
+}
+
+// exponentBeyondBigFloat: the text is a valid JSON number, its exponent is out of the range
+// big.ParseFloat handles (|e| of about 2^31 and more: 1e2147483647, 1e99999999999) and the dependency
+// refuses it.
+func exponentBeyondBigFloat(lit string) bool {
+	if !stdjson.Valid([]byte(lit)) || len(lit) == 0 || !(lit[0] == '-' || (lit[0] >= '0' && lit[0] <= '9')) {
+		return false
+	}
+	if expOf(lit).CmpAbs(big.NewInt(2000000000)) < 0 {
+		return false
+	}
+	_, err := cty.ParseNumberVal(lit)
+	return err != nil
+}
+
+// rejectedOnlyForExponent: every error is "Invalid JSON number" and points at a number literal that
+// exponentBeyondBigFloat.
+func rejectedOnlyForExponent(src []byte, diags hcl.Diagnostics) bool {
+	n := 0
+	for _, d := range diags {
+		if d.Severity != hcl.DiagError {
+			continue
+		}
+		if d.Summary != "Invalid JSON number" || d.Subject == nil {
+			return false
+		}
+		a, b := d.Subject.Start.Byte, d.Subject.End.Byte
+		if a < 0 || b > len(src) || a >= b || !exponentBeyondBigFloat(string(src[a:b])) {
+			return false
+		}
+		n++
+	}
+	return n > 0
+}
+
 type oracle struct {
 	rep   *hv.Report
 	input string
@@ -272,16 +338,30 @@ func (o *oracle) canon(v cty.Value, n *jnode) string {
 			o.rep.Hist("number:exact")
 			return "GNum 0 1"
 		case bf.IsInf():
-			o.fail("number-precision-lost", "literal "+clip(n.num)+" evaluates to "+hv.RatString(bf)+" with no diagnostic (overflow)")
+			// the finding: a literal beyond big.Float's range becomes +-Inf in the dependency
+			if dep, ok := depNumber(n.num); ok && sameBig(dep, bf) && huge && isInt {
+				o.fail("number-precision-lost", "literal "+clip(n.num)+" evaluates to "+hv.RatString(bf)+" with no diagnostic (overflow)")
+			} else {
+				o.fail("literal-mapping-differs", "literal "+clip(n.num)+" evaluates to "+hv.RatString(bf)+", which is not what cty.ParseNumberVal makes of an out-of-range literal")
+			}
 			o.rep.Hist("number:overflow-to-inf")
 			return "GNumInexact"
 		case bf.Sign() == 0:
-			o.fail("number-precision-lost", "non-zero literal "+clip(n.num)+" evaluates to 0 with no diagnostic (underflow)")
+			// the finding: a literal below big.Float's range becomes 0 in the dependency
+			if dep, ok := depNumber(n.num); ok && sameBig(dep, bf) && huge && !isInt {
+				o.fail("number-precision-lost", "non-zero literal "+clip(n.num)+" evaluates to 0 with no diagnostic (underflow)")
+			} else {
+				o.fail("literal-mapping-differs", "non-zero literal "+clip(n.num)+" evaluates to 0, which is not what cty.ParseNumberVal makes of it")
+			}
 			o.rep.Hist("number:underflow-to-zero")
 			return "GNumInexact"
 		case huge:
 			// finite non-zero result for an exponent beyond 20000 digits: cannot be exact at 512 bits
-			if isInt {
+			dep, ok := depNumber(n.num)
+			switch {
+			case !ok || !sameBig(dep, bf):
+				o.fail("literal-mapping-differs", "literal "+clip(n.num)+" evaluates to "+hv.RatString(bf)+", not to the 512-bit value cty.ParseNumberVal gives it")
+			case isInt:
 				o.fail("number-precision-lost", "integer literal "+clip(n.num)+" is silently rounded to 512 bits")
 			}
 			o.rep.Hist("number:huge-exponent-rounded")
@@ -292,22 +372,38 @@ func (o *oracle) canon(v cty.Value, n *jnode) string {
 			o.rep.Hist("number:exact")
 			return "GNum " + coqZ(got.Num()) + " " + got.Denom().String()
 		}
+		// the value is not the literal's. The finding covers exactly: the dependency's own 512-bit
+		// rounding of a literal that does not fit 512 bits. So the value must be the one
+		// cty.ParseNumberVal returns for this very text AND lie within 2^-510 (relative) of the exact
+		// value; anything else (a wrong digit, a lost sign, an off-by-one) is a mapping error.
+		near := new(big.Float).SetPrec(512).SetMode(big.ToNearestEven).SetRat(exact)
+		dep, depOK := depNumber(n.num)
+		depSame := depOK && sameBig(dep, bf)
+		diff := new(big.Rat).Sub(got, exact)
+		diff.Abs(diff)
+		rel := new(big.Rat).Quo(diff, new(big.Rat).Abs(exact))
+		bound := new(big.Rat).SetFrac(big.NewInt(1), new(big.Int).Lsh(big.NewInt(1), 510))
+		close := rel.Cmp(bound) <= 0
 		if isInt {
-			o.fail("number-precision-lost", "integer literal "+clip(n.num)+" is silently rounded to 512 bits (spec.md: an error is produced if an integer value cannot be represented precisely)")
-			o.rep.Hist("number:integer-rounded")
+			if depSame && close {
+				o.fail("number-precision-lost", "integer literal "+clip(n.num)+" is silently rounded to 512 bits (spec.md: an error is produced if an integer value cannot be represented precisely)")
+				o.rep.Hist("number:integer-rounded")
+			} else {
+				o.fail("literal-mapping-differs", "integer literal "+clip(n.num)+" evaluates to "+hv.RatString(bf)+", which is neither its value nor its 512-bit rounding by cty.ParseNumberVal")
+				o.rep.Hist("number:integer-wrong")
+			}
 			return "GNumInexact"
 		}
 		// a non-integer may be rounded to the nearest representable value
-		near := new(big.Float).SetPrec(512).SetMode(big.ToNearestEven).SetRat(exact)
 		if near.Cmp(bf) == 0 {
 			o.rep.Hist("number:nonint-rounded-to-nearest(spec-allowed)")
 		} else {
-			diff := new(big.Rat).Sub(got, exact)
-			diff.Abs(diff)
-			rel := new(big.Rat).Quo(diff, new(big.Rat).Abs(exact))
-			bound := new(big.Rat).SetFrac(big.NewInt(1), new(big.Int).Lsh(big.NewInt(1), 510))
-			if rel.Cmp(bound) > 0 {
+			switch {
+			case close:
+			case depSame:
 				o.fail("number-precision-lost", "literal "+clip(n.num)+" is off by more than 2^-510 relative")
+			default:
+				o.fail("literal-mapping-differs", "literal "+clip(n.num)+" evaluates to "+hv.RatString(bf)+": off by more than 2^-510 relative and not what cty.ParseNumberVal returns")
 			}
 			o.rep.Hist("number:nonint-rounded-not-nearest")
 			o.rep.Soft++
@@ -349,8 +445,12 @@ func (o *oracle) canon(v cty.Value, n *jnode) string {
 			}
 			return "GObj " + hv.CoqList(parts)
 		}
+		if len(attrs) != len(n.keys) {
+			// evaluation reported no error, so every member must have become an attribute
+			o.fail("duplicate-name-silently-merged", fmt.Sprintf("JSON object with %d members evaluates without error to an object with %d attributes", len(n.keys), len(attrs)))
+		}
 		for i, k := range n.keys {
-			nk := cty.NormalizeString(k)
+			nk := nfc(k) // reference normal form of the name (dupnf.go), not cty's
 			if seen[nk] {
 				continue
 			}
@@ -462,6 +562,7 @@ func c13Case(rep *hv.Report, s string) (cs string, err error) {
 
 	everr := false
 	gval := "GDyn"
+	nfTable := "[]"
 	stdValid := stdjson.Valid(src)
 	if accepted {
 		rep.Hist("go:accepted")
@@ -476,13 +577,9 @@ func c13Case(rep *hv.Report, s string) (cs string, err error) {
 			tree = nil
 		}
 		if tree != nil {
-			wantErr := hasDup(tree)
-			if wantErr != everr {
-				o.fail("literal-mapping-differs", fmt.Sprintf("duplicate property names: want evaluation error=%v, got %v (%s)", wantErr, everr, vd.Error()))
-			}
-			if wantErr {
-				rep.Hist("value:duplicate-name-error")
-			}
+			// names are HCL strings: duplicates byte-wise AND after NFC, both modes (dupnf.go)
+			o.checkDuplicateNames(expr, v, vd, tree)
+			nfTable = coqNameTable(tree)
 		}
 		if !everr {
 			gval = o.canon(v, tree)
@@ -497,7 +594,8 @@ func c13Case(rep *hv.Report, s string) (cs string, err error) {
 			switch {
 			case strings.ContainsAny(s, prependChars):
 				kind = "rejects-valid-json-grapheme-prepend"
-			case hasSummary(diags, "Invalid JSON number"):
+			case rejectedOnlyForExponent(src, diags):
+				// decided on the literal the diagnostic points at, not on the diagnostic's text alone
 				kind = "rejects-valid-json-number-exponent"
 			}
 			o.fail(kind, "json.ParseExpression: "+diags.Error())
@@ -518,8 +616,8 @@ func c13Case(rep *hv.Report, s string) (cs string, err error) {
 	if len(kinds) == 0 {
 		rep.Hist("oracle-ok")
 	}
-	return fmt.Sprintf("mkCase %s %s %s %s %s (%s)", hv.Hexs(src), hv.CoqList(titems), hv.CoqZList(codes),
-		hv.CoqBool(fileOK), hv.CoqBool(everr), gval), nil
+	return fmt.Sprintf("mkCase %s %s %s %s %s (%s) %s", hv.Hexs(src), hv.CoqList(titems), hv.CoqZList(codes),
+		hv.CoqBool(fileOK), hv.CoqBool(everr), gval, nfTable), nil
 }
 
 // ---- full-expression mode -------------------------------------------------------------
@@ -592,7 +690,7 @@ const strictTail = "Definition strict := Eval vm_compute in map (fun p => (base_
 
 func runC13(cfg *hv.RunCfg) error {
 	rep := hv.NewReport("C13", cfg.Seed)
-	rep.Rule = "grammar-generated JSON texts (every escape form, surrogate pairs and lone surrogates, raw multi-byte and Prepend-class characters, numbers with extreme exponents/precision, nesting to depth 200, all whitespace forms, duplicate names, template sequences in strings) + one or two near-miss mutations on 45% of them + hand corpus; non-trivial = at least 3 scanner tokens or an escape sequence; distinct by SHA-256 of the input"
+	rep.Rule = "grammar-generated JSON texts (every escape form, surrogate pairs and lone surrogates, raw multi-byte and Prepend-class characters, numbers with extreme exponents/precision, nesting to depth 200, all whitespace forms, duplicate names, template sequences in strings) + on 8% of the cases the stream dupnf: objects at top level / in arrays / in objects / deeper with 2-5 properties, two or three of whose names are canonically equivalent but spelled differently (NFC/NFD/mixed forms, singletons, composition exclusions, Hangul syllables against jamo, \\uXXXX and surrogate-pair escapes against raw UTF-8) next to near-miss names that are different HCL strings, each evaluated in literal-only AND full-expression mode + one or two near-miss mutations on 45% of them + hand corpus; non-trivial = at least 3 scanner tokens or an escape sequence; distinct by SHA-256 of the input"
 	r := hv.NewRng(cfg.Seed, 13)
 	cf := &hv.CaseFile{Dir: cfg.Out, Name: "c13cases",
 		Imports: "From Coq Require Import String.\nFrom HclV Require Import Base.Prelude Json.Rfc8259 Json.Scanner Json.Parser Json.Literal Json.JsonCheck.",
@@ -615,7 +713,13 @@ func runC13(cfg *hv.RunCfg) error {
 				}
 			}
 		}
+		srcs = append(srcs, c13CorpusDupNames...)
 		for i := 0; i < cfg.N; i++ {
+			if r.Chance(0.08) {
+				// canonically equivalent property names, spelled differently (dupnf.go); kept valid
+				srcs = append(srcs, genDupNF(r, rep.Histogram))
+				continue
+			}
 			s := genJSON(r, rep.Histogram)
 			if r.Chance(0.45) {
 				var name string
